@@ -388,3 +388,63 @@ From CG Require Import Gen.Source Proofs.GenEq10.
 Example C13_source_windows_are_model : _ := g_period_windows_dt_eq.
 Print Assumptions C13_source_windows_are_model.
 Example C13_source_windows_loop_is_model : _ := g_period_windows_dt_loop.
+
+(* ---- tie C, third extension: the rest of calgebra/metrics.py as the code has it (Proofs/GenEq_met.v).
+   Every statement below is about a definition of Gen/Source.v, regenerated from the source text on
+   every run: the per-window aggregations and closures, group keys, validation, bounds, the two drivers
+   and the five public functions are the model's, for all inputs (hypothesis: fuel for the stepping
+   loops, at least the model's own). ---- *)
+From CG Require Proofs.GenEq_met.
+Example C13_source_total_duration_window : _ := GenEq_met.g_total_duration_eq.
+Print Assumptions C13_source_total_duration_window.
+Example C13_source_extremum_duration : _ := GenEq_met.g_extremum_duration_eq.
+Print Assumptions C13_source_extremum_duration.
+Example C13_source_max_agg : _ := GenEq_met.g_max_agg_eq.
+Print Assumptions C13_source_max_agg.
+Example C13_source_min_agg : _ := GenEq_met.g_min_agg_eq.
+Print Assumptions C13_source_min_agg.
+Example C13_source_count_agg : _ := GenEq_met.g_count_agg_eq.
+Print Assumptions C13_source_count_agg.
+Example C13_source_coverage_agg : _ := GenEq_met.g_cov_agg_eq.
+Print Assumptions C13_source_coverage_agg.
+Example C13_source_coverage_agg_tuple : _ := GenEq_met.g_cov_agg_tuple_eq.
+Print Assumptions C13_source_coverage_agg_tuple.
+Example C13_source_coverage_combine : _ := GenEq_met.g_cov_combine_ratios_eq.
+Print Assumptions C13_source_coverage_combine.
+Example C13_source_coverage_no_division_by_zero : _ := (@GenEq_met.g_cov_agg_den_pos, GenEq_met.g_cov_combine_den_pos).
+Print Assumptions C13_source_coverage_no_division_by_zero.
+Example C13_source_extract_group_key : _ := GenEq_met.g_extract_group_key_eq.
+Print Assumptions C13_source_extract_group_key.
+Example C13_source_validate_period_group_by : _ := GenEq_met.g_validate_eq.
+Print Assumptions C13_source_validate_period_group_by.
+Example C13_source_coerce_bound : _ := (GenEq_met.g_met_coerce_bound_eq, GenEq_met.g_met_coerce_bound_is_model).
+Print Assumptions C13_source_coerce_bound.
+Example C13_source_period_windows : _ := (GenEq_met.g_period_windows_exact, GenEq_met.g_period_windows_eq).
+Print Assumptions C13_source_period_windows.
+Example C13_source_windowed_agg : _ := (@GenEq_met.g_windowed_agg_eq, @GenEq_met.g_windowed_agg_is_model).
+Print Assumptions C13_source_windowed_agg.
+Example C13_source_grouped_agg : _ := (@GenEq_met.g_grouped_agg_eq, @GenEq_met.g_grouped_agg_is_model).
+Print Assumptions C13_source_grouped_agg.
+Example C13_source_total_duration_is_model : _ := GenEq_met.g_pub_total_duration_is_model.
+Print Assumptions C13_source_total_duration_is_model.
+Example C13_source_count_intervals_is_model : _ := GenEq_met.g_pub_count_intervals_is_model.
+Print Assumptions C13_source_count_intervals_is_model.
+Example C13_source_coverage_ratio_is_model : _ := GenEq_met.g_pub_coverage_ratio_is_model.
+Print Assumptions C13_source_coverage_ratio_is_model.
+Example C13_source_max_duration_is_model : _ := GenEq_met.g_pub_max_duration_is_model.
+Print Assumptions C13_source_max_duration_is_model.
+Example C13_source_min_duration_is_model : _ := GenEq_met.g_pub_min_duration_is_model.
+Print Assumptions C13_source_min_duration_is_model.
+(* the exactness theorems above, stated of the code text *)
+Example C13_source_total_is_measure : _ := GenEq_met.src_total_is_measure.
+Print Assumptions C13_source_total_is_measure.
+Example C13_source_total_is_measure_per_period : _ := GenEq_met.src_total_is_measure_per_period.
+Print Assumptions C13_source_total_is_measure_per_period.
+Example C13_source_extremum_spec : _ := GenEq_met.src_extremum_spec.
+Print Assumptions C13_source_extremum_spec.
+Example C13_source_count_is_hits : _ := GenEq_met.src_count_is_hits.
+Print Assumptions C13_source_count_is_hits.
+Example C13_source_metrics_never_out_of_fuel : _ := GenEq_met.src_metrics_never_out_of_fuel.
+Print Assumptions C13_source_metrics_never_out_of_fuel.
+Example C13_source_hypotheses_satisfiable : _ :=
+  (GenEq_met.g_pub_inst_fuel, GenEq_met.g_pub_total_duration_inst, GenEq_met.g_pub_others_inst).
